@@ -91,12 +91,14 @@ func c03Ops() []c03op {
 		{name: "with-end", arity: 1}, {name: "with-front", arity: 1}, {name: "with-new", arity: 1}, {name: "with-existing", arity: 1},
 		{name: "without-first", arity: 1}, {name: "without-last", arity: 1}, {name: "without-mid", arity: 1},
 		{name: "go-with-end", arity: 1}, {name: "go-without-last", arity: 1}, {name: "go-without-first", arity: 1},
+		{name: "++elem", arity: 1}, {name: "elem++", arity: 1}, {name: "++same", arity: 1, tmpl: "a ++ a"},
 		{name: "++", arity: 2, tmpl: "a ++ b"}, {name: "|", arity: 2, tmpl: "a | b"}, {name: "&", arity: 2, tmpl: "a & b"},
 		{name: "&~", arity: 2, tmpl: "a &~ b"}, {name: "~~", arity: 2, tmpl: "a ~~ b"},
 		{name: ">>id", arity: 1, tmpl: `a >> \x x`}, {name: ">>wrap", arity: 1, tmpl: `a >> \x [x]`}, {name: ">>>", arity: 1, tmpl: `a >>> \i \x x`},
 		{name: "=>id", arity: 1, tmpl: `a => .`}, {name: "=>probe", arity: 1, tmpl: `a => f(.)`},
 		{name: "where-probe", arity: 1, tmpl: `a where p(.)`}, {name: "where-true", arity: 1, tmpl: `a where true`},
 		{name: "offset+1", arity: 1, tmpl: `1\a`}, {name: "offset-1", arity: 1, tmpl: `(-1)\a`}, {name: "offset+0", arity: 1, tmpl: `0\a`},
+		{name: "<&>fresh1", arity: 1, tmpl: "a <&> {|zq| (1)}"}, {name: "<&>fresh2", arity: 1, tmpl: "a <&> {|zr| (2), (3)}"},
 		{name: "<&>", arity: 2, tmpl: "a <&> b"}, {name: "<->", arity: 2, tmpl: "a <-> b"}, {name: "-&-", arity: 2, tmpl: "a -&- b"},
 		{name: "+>", arity: 2, tmpl: "a +> b"},
 		{name: "seq.concat", arity: 2, tmpl: "//seq.concat([a, b])"}, {name: "seq.repeat", arity: 1, tmpl: "//seq.repeat(2, a)"},
@@ -346,6 +348,34 @@ func (c03) RunCase(cfg *core.Config, i int) core.CaseResult {
 				}
 				return s.With(e), nil
 			})
+		case op.name == "++elem" || op.name == "elem++":
+			// concatenate with a fresh one-element sequence of the same kind (the append fast-path shape)
+			da, pi := core.SafeDenote(a.v)
+			if pi != nil {
+				continue
+			}
+			var esrc string
+			switch cls := core.Classify(da); {
+			case strings.HasPrefix(cls, "arr"):
+				esrc = fmt.Sprintf("[%d]", 50+r.Intn(9))
+			case strings.HasPrefix(cls, "str"):
+				esrc = fmt.Sprintf("%q", string(rune('p'+r.Intn(9))))
+			case strings.HasPrefix(cls, "bytes"):
+				esrc = fmt.Sprintf("<<%d>>", 50+r.Intn(9))
+			default:
+				continue
+			}
+			eo := build(esrc)
+			if !eo.OK() {
+				continue
+			}
+			if op.name == "++elem" {
+				desc = fmt.Sprintf("#%d ++ %s", indexOf(pool, a), esrc)
+				o = core.EvalT("a ++ e", "a", a.v, "e", eo.Val)
+			} else {
+				desc = fmt.Sprintf("%s ++ #%d", esrc, indexOf(pool, a))
+				o = core.EvalT("e ++ a", "a", a.v, "e", eo.Val)
+			}
 		case op.goOp != nil:
 			desc = fmt.Sprintf("%s(#%d,#%d)", op.name, indexOf(pool, a), indexOf(pool, b))
 			o = core.Guard(func() (rel.Value, error) { return op.goOp(a.v, b.v, r) })
